@@ -1,5 +1,6 @@
 import DigModel.Proofs.Lookup
 import DigModel.Proofs.ApiLemmas
+import DigModel.Proofs.Shape
 /-
   C01 — Injected values are exactly the registered constructors' outputs (resolution rule).
 
@@ -134,9 +135,21 @@ theorem C01_nothing (ctx : Ctx) (fuel : Nat) (k : Key) (opt : Bool) (c : Nat) (s
   simp only [buildSingle, h1, h2, h3]
   cases opt <;> simp
 
+/-- a successful Invoke (without DryRun) entered the invoked function exactly once, as the last thing it did:
+    its events are those of constructor / decorator nodes followed by the invoked function's enter and exit -/
+theorem C01_invoked_once (ctx : Ctx) (hnd : ctx.cfg.dry = false) (fn : Fn) (st : St) (s : Nat) (info : Bool)
+    (hlog : st.log = []) (hok : (apiInvoke ctx fn st s info).2.v = .ok) :
+    ∃ l x args r, (apiInvoke ctx fn st s info).2.ev = l ++ [.enter .invoked fn.id x args, .exit .invoked fn.id x r] ∧
+      ∀ e ∈ l, e.who ≠ .invoked := by
+  obtain ⟨l, t, he, hb, ht, hne⟩ := apiInvoke_shape ctx fn st s info hlog
+  rcases ht with rfl | ⟨_, x, args, r, rfl⟩
+  · exact absurd rfl (hne hok hnd)
+  · exact ⟨l, x, args, r, he, hb.who⟩
+
 #print axioms C01_decorator_wins
 #print axioms C01_decorated_cache
 #print axioms C01_cached_value
 #print axioms C01_provided
 #print axioms C01_nothing
+#print axioms C01_invoked_once
 end Dig.C01
